@@ -81,6 +81,10 @@ def run_shard(ctx):
         if ad is None:
             ctx.count("config_rejected_or_out_of_domain")
             continue
+        ap = M.attr_problems(cfg, ad)
+        if ap:
+            ctx.case(("attrs", str(cfg)))
+            ctx.violation("adapter-attributes", "; ".join(ap) + f"; adapter={ad!r}", M.case_dict(cfg, None), klass=cfg["type"])
         for _ in range(8):
             one(ctx, cfg, ad, M.gen_read(rng, cfg, ad.sequence))
     for k in range(ctx.scale(8, 150)):
@@ -157,5 +161,11 @@ def replay(ctx, case):
     ad = M.build(cfg)
     if ad is None:
         ctx.mark_inconclusive("configuration rejected")
+        return
+    ap = M.attr_problems(cfg, ad)
+    if ap:
+        ctx.case(("attrs", str(cfg)))
+        ctx.violation("adapter-attributes", "; ".join(ap), M.case_dict(cfg, None))
+    if case.get("read") is None:
         return
     one(ctx, cfg, ad, case["read"])
